@@ -33,8 +33,15 @@ class UserErr(Exception):
 
 
 def val(k):
-    """Payload menu: small ints and one non-int."""
-    return 's' if k == 3 else k
+    """Returned-value menu: small ints, one non-int and None."""
+    return 's' if k == 3 else (None if k == 2 else k)
+
+
+def conforms_ret(v):
+    """Does a coroutine result satisfy the return annotation in force (RET)?"""
+    if RET == 'optint':
+        return v is None or (isinstance(v, int) and not isinstance(v, bool)) or isinstance(v, bool)
+    return isinstance(v, int)
 
 
 class Suspend:
@@ -49,7 +56,8 @@ class Suspend:
 
 # ---- scripted originals.  script: list of (kind, payload); log: what the body observes
 def gen_body(script, log):
-    def original(x: int) -> Generator[int, int, int]:
+    def original(*a) -> ANN:
+        x = a[-1]
         log.append(('start', x))
         try:
             for kind, p in script:
@@ -73,7 +81,8 @@ def gen_body(script, log):
 
 
 def agen_body(script, log, cleanup=False):
-    async def original(x: int) -> AsyncGenerator[int, int]:
+    async def original(*a) -> ANN:
+        x = a[-1]
         log.append(('start', x))
         try:
             for kind, p in script:
@@ -100,7 +109,8 @@ def agen_body(script, log, cleanup=False):
 
 
 def coro_body(script, log):
-    async def original(x: int) -> int:
+    async def original(*a) -> ANN:
+        x = a[-1]
         log.append(('start', x))
         try:
             for kind, p in script:
@@ -226,7 +236,7 @@ def expected(obs_plain, kind):
     an int surfaces as the return violation (generators' return values are not checked)."""
     out = []
     for o in obs_plain:
-        if kind == 'coro' and o[0] == 'stop' and not isinstance(o[1], int):
+        if kind == 'coro' and o[0] == 'stop' and not conforms_ret(o[1]):
             out.append(('return-violation',))
         else:
             out.append(o)
@@ -238,14 +248,31 @@ def compare(kind, script, ops, cleanup=False):
     log_p, log_w = [], []
     if kind == 'agen':
         plain = make(script, log_p, cleanup)
-        wrapped = DEC(make(script, log_w, cleanup))
+        inner_w = make(script, log_w, cleanup)
     else:
         plain = make(script, log_p)
-        wrapped = DEC(make(script, log_w))
+        inner_w = make(script, log_w)
+    if HOST == 'function':
+        wrapped = DEC(inner_w)
+    else:
+        # the callable is a method (plain / static) of a class that is decorated as a whole
+        member = (lambda f: staticmethod(f)) if HOST == 'static' else (lambda f: f)
+        PlainHost = type('PlainHost', (), {'m': member(plain)})
+        WrapHost = DEC(type('WrapHost', (), {'m': member(inner_w)}))
+        plain_f, wrapped_f = plain, WrapHost.__dict__['m']
+        wrapped_f = wrapped_f.__func__ if isinstance(wrapped_f, staticmethod) else wrapped_f
+        for probe in (inspect.iscoroutinefunction, inspect.isgeneratorfunction, inspect.isasyncgenfunction):
+            if probe(plain_f) != probe(wrapped_f):
+                LAST[0] = f'{probe.__name__}: original {probe(plain_f)}, decorated method {probe(wrapped_f)}'
+                return False
+        plain, wrapped = PlainHost().m, WrapHost().m
     for probe in (inspect.iscoroutinefunction, inspect.isgeneratorfunction, inspect.isasyncgenfunction):
         if probe(plain) != probe(wrapped):
             LAST[0] = f'{probe.__name__}: original {probe(plain)}, decorated {probe(wrapped)}'
             return False
+    if HOST == 'function' and getattr(wrapped, '__wrapped__', None) is not inner_w:
+        LAST[0] = 'decorated callable does not expose the original as __wrapped__'
+        return False
     obs_p = drive(plain, ops, log_p)
     obs_w = drive(wrapped, ops, log_w)
     want = expected(obs_p, kind)
@@ -263,10 +290,21 @@ def compare(kind, script, ops, cleanup=False):
 
 CONF = make_conf(@CONFKW@)
 DEC = beartype(conf=CONF)
+ANN = @ANN@
+RET = @RET@
+HOST = @HOST@
 '''
 
 
-def spec(kind, n_script, n_ops, confkw, tag):
+ANNS = {
+    'gen': {'generator': 'Generator[int, int, int]', 'iterator': 'Iterator[int]', 'iterable': 'Iterable[int]'},
+    'agen': {'generator': 'AsyncGenerator[int, int]', 'iterator': 'AsyncIterator[int]', 'iterable': 'AsyncIterable[int]'},
+    'coro': {'int': 'int', 'optint': 'Optional[int]'},
+}
+
+
+def spec(kind, n_script, n_ops, confkw, tag, ann=None, host='function'):
+    ann = ann or next(iter(ANNS[kind]))
     params = []
     pre = []
     for i in range(n_script):
@@ -286,7 +324,9 @@ def spec(kind, n_script, n_ops, confkw, tag):
             ', '.join((['0', '1', '2', '0'] * n)[:n])]
     if kind == 'agen':
         warm = [w.rsplit(', ', 1)[0] + ', ' + b for w, b in zip(warm, ('False', 'True', 'True'))]
-    return Spec(f'{kind}_{n_script}x{n_ops}__{tag}', params, body, setup=SETUP.replace('@CONFKW@', repr(confkw)), pre=pre, warm=warm,
+    setup = (SETUP.replace('@CONFKW@', repr(confkw)).replace('@ANN@', ANNS[kind][ann])
+             .replace('@RET@', repr(ann)).replace('@HOST@', repr(host)))
+    return Spec(f'{kind}_{ann}_{host}_{n_script}x{n_ops}__{tag}', params, body, setup=setup, pre=pre, warm=warm,
                 timeout=300 if n_script + n_ops <= 4 else 900, stubs=False)
 
 
@@ -295,11 +335,15 @@ def specs(tier, seed=0):
     if tier == 'quick':
         for kind in ('gen', 'agen', 'coro'):
             out.append(spec(kind, 2, 2, {}, 'default'))
+        out += [spec('gen', 2, 2, {}, 'default', 'iterator', 'method'), spec('agen', 2, 2, {}, 'default', 'iterator', 'static'),
+                spec('coro', 2, 2, {}, 'default', 'optint', 'method')]
         return out
     for kind in ('gen', 'agen', 'coro'):
-        out.append(spec(kind, 2, 2, {}, 'default'))
         out.append(spec(kind, 3, 2, {}, 'default'))
         out.append(spec(kind, 2, 3, {}, 'default'))
         out.append(spec(kind, 2, 2, {'is_random': False}, 'nonrandom'))
         out.append(spec(kind, 2, 2, {'violation_type': 'VerifError'}, 'exc'))
+        for ann in ANNS[kind]:
+            for host in ('function', 'method', 'static'):
+                out.append(spec(kind, 2, 2, {}, 'default', ann, host))
     return out
